@@ -74,7 +74,10 @@ func zzRetryKernel(focus int) {
 			CheckInterval: 5 * time.Second}
 	}
 	orig := append([]*domain.Endpoint{}, eps...)
-	disc := &zzDisc{}
+	// the repository knows one more healthy endpoint that is NOT a candidate of this request
+	// (e.g. excluded by model/provider routing or because it lacks native support)
+	outsider := &domain.Endpoint{Name: "X", URLString: "http://X", Status: domain.StatusHealthy, BackoffMultiplier: 1, CheckInterval: 5 * time.Second}
+	disc := &zzDisc{healthy: append(append([]*domain.Endpoint{}, eps...), outsider)}
 	sel := &zzSel{inflight: map[string]int{}, maxSeen: map[string]int{}}
 	h := NewRetryHandler(disc, zzLog{})
 	w := &zzW{h: http.Header{}}
